@@ -740,7 +740,86 @@ fn run_public_op(
     note_status(sh, req, status);
 }
 
+/// C06's per-request clauses, judged when the request resolves.
+fn c06_clauses(sh: &Sh, req: usize, status: &ReqStatus) {
+    let s = sh.borrow();
+    if s.cfg.prop != Prop::C06 && s.cfg.prop != Prop::C03 {
+        return;
+    }
+    let r = &s.reqs[req];
+    let retries: Option<usize> = match s.cfg.retry {
+        RetryBehaviour::None => Some(0),
+        RetryBehaviour::Count(n) => Some(n),
+        RetryBehaviour::Forever => None,
+    };
+    let t = s.cfg.pdu_timeout_us;
+    let mut found: Option<(&'static str, String)> = None;
+    if r.all_lost && *status == ReqStatus::Completed {
+        found = Some((
+            "lost-request-succeeded",
+            format!("req {}: every transmission was lost, yet the call completed instead of timing out", req),
+        ));
+    }
+    if r.retransmit_differs {
+        found = Some((
+            "retransmission-differs",
+            format!("req {}: a retransmission was not byte-identical to the first transmission", req),
+        ));
+    }
+    if let Some(n) = retries {
+        if r.transmissions.len() > 1 + n {
+            found = Some((
+                "too-many-transmissions",
+                format!("req {}: transmitted {} times with a retry budget of {}", req, r.transmissions.len(), n),
+            ));
+        }
+        if let ReqStatus::Failed(why) = status {
+            if why.starts_with("Timeout") {
+                let elapsed = clock::now().saturating_sub(r.created_at);
+                if elapsed < (1 + n as u64) * t {
+                    found = Some((
+                        "timeout-too-early",
+                        format!("req {}: timed out after {} us; {} transmissions of {} us each were due", req, elapsed, 1 + n, t),
+                    ));
+                }
+                if s.cfg.tx_priority && r.all_lost && s.cfg.tx_error == 0 && r.transmissions.len() != 1 + n {
+                    found = Some((
+                        "wrong-transmission-count",
+                        format!(
+                            "req {}: resolved to a timeout after {} transmissions; exactly {} (1 + {} retries) were due (the TX task serviced every sendable frame before each deadline)",
+                            req,
+                            r.transmissions.len(),
+                            1 + n,
+                            n
+                        ),
+                    ));
+                }
+            }
+        }
+    }
+    if let ReqStatus::Failed(why) = status {
+        if why.starts_with("Timeout") {
+            if let Some(ps) = r.processed_step {
+                if ps < r.last_poll_step && r.responses_processed > 0 {
+                    found = Some((
+                        "deadline-beat-response",
+                        format!(
+                            "req {}: its response had been fully received (step {}) before the poll that returned the timeout began (step {})",
+                            req, ps, r.last_poll_step
+                        ),
+                    ));
+                }
+            }
+        }
+    }
+    drop(s);
+    if let Some((clause, detail)) = found {
+        anomaly(clause, detail);
+    }
+}
+
 fn note_status(sh: &Sh, req: usize, status: ReqStatus) {
+    c06_clauses(sh, req, &status);
     {
         let mut s = sh.borrow_mut();
         match status {
@@ -1120,7 +1199,9 @@ fn rx_body(sh: Sh, mut rx: PduRx<'static>, _me: usize, n_apps: usize) {
                     }
                     Err(e) => {
                         s.stats.rx_err += 1;
-                        let first_for_req = item.req.map_or(false, |r| s.reqs[r].responses_processed == 0 && s.reqs[r].status == ReqStatus::Issued);
+                        let first_for_req = item.req.map_or(false, |r| {
+                            s.reqs[r].responses_processed == 0 && matches!(s.reqs[r].status, ReqStatus::Issued | ReqStatus::Building)
+                        });
                         if item.genuine && before_sent && first_for_req && matches!(s.cfg.prop, Prop::C01 | Prop::C02) {
                             drop(s);
                             anomaly(
@@ -1336,7 +1417,7 @@ pub fn draw_cfg(prop: Prop, t: &mut Tape, thorough: bool) -> ScenCfg {
             cfg.loss = t.pick(&[0u32, 30, 60], "loss_rate");
             cfg.dup = t.pick(&[0u32, 25], "dup");
             cfg.realloc_probe = true;
-            cfg.trans = TransMode::Off;
+            cfg.trans = TransMode::WithDeadlines;
         }
         Prop::C06 => {
             cfg.hb = true;
@@ -1348,12 +1429,18 @@ pub fn draw_cfg(prop: Prop, t: &mut Tape, thorough: bool) -> ScenCfg {
             };
             cfg.timer_fire = t.pick(&[(5u32, 100u32), (1, 100), (20, 100), (0, 1)], "timer_rate");
             cfg.observed = Some(0);
-            cfg.lose_all_observed = t.flag(40, 100, "lose_all");
+            cfg.lose_all_observed = t.flag(40, 100, "lose_all") && cfg.retry != RetryBehaviour::Forever;
             cfg.loss = if cfg.lose_all_observed { 0 } else { t.pick(&[30u32, 0, 60], "loss_rate") };
             cfg.tx_priority = t.flag(40, 100, "tx_priority");
+            if cfg.tx_priority {
+                // "The transmit task services every sendable frame before the next deadline": time
+                // only advances when every party is blocked, i.e. after TX has drained its queue.
+                cfg.timer_fire = (0, 1);
+                cfg.waker_driven = true;
+            }
             cfg.tx_error = t.pick(&[0u32, 0, 15], "tx_error_rate");
             cfg.realloc_probe = true;
-            cfg.trans = TransMode::Off;
+            cfg.trans = TransMode::WithDeadlines;
             cfg.tx_multi_read = true;
         }
     }
@@ -1497,17 +1584,24 @@ pub fn run_scenario(cfg: ScenCfg, tape: Tape, nonce: u64) -> RunOutcome {
             drop(f);
         } else {
             leaked += 1;
-            std::mem::forget(f);
+            f.discard();
         }
     }
 
     if clean && cfg.realloc_probe && end != RunEnd::Budget {
+        // The probe runs after every party has finished: no concurrency left to judge.
+        with(|c| c.hb = None);
         realloc_probe(&sh, md.get(), pl_ref);
     }
 
     let ctx = enginef::uninstall();
     let s = sh.borrow();
-    let nontrivial = s.stats.overlap_max >= 2 && ctx.inside_pdu_loop_switches >= 1;
+    let faults_fired: u64 = s.stats.faults.values().sum::<u64>() + s.stats.ops_abandoned + ctx.timers_fired_by_choice;
+    let nontrivial = match cfg.prop {
+        Prop::C03 => s.reqs.len() >= 2 && faults_fired >= 1,
+        Prop::C06 => faults_fired >= 1 && ctx.inside_pdu_loop_switches >= 1,
+        _ => s.stats.overlap_max >= 2 && ctx.inside_pdu_loop_switches >= 1,
+    };
     let reqs_summary = s
         .reqs
         .iter()
@@ -1545,14 +1639,8 @@ pub fn run_scenario(cfg: ScenCfg, tape: Tape, nonce: u64) -> RunOutcome {
         reqs_summary,
     };
     drop(s);
-    if leaked > 0 {
-        // The leaked fibres still reference the storage and the MainDevice: leak those too.
-        std::mem::forget(sh);
-        std::mem::forget(md);
-        std::mem::forget(store);
-        clock::reset();
-        return out;
-    }
+    // Discarded fibres are never resumed, so the storage and MainDevice they point to can go.
+    let _ = leaked;
     drop(sh);
     clock::reset();
     drop(md);
@@ -1635,7 +1723,7 @@ fn realloc_probe(sh: &Sh, md: &'static MainDevice<'static>, _pl: &'static PduLoo
     let mut futs = Vec::new();
     let mut failed_at = None;
     for i in 0..n {
-        let mut fut = Box::pin(Command::brd(0x0000).receive::<u8>(md));
+        let mut fut = Box::pin(Command::brd(0x0000).ignore_wkc().receive_slice(md, 0));
         match fut.as_mut().poll(&mut cx) {
             Poll::Pending => futs.push(fut),
             Poll::Ready(Err(Error::Pdu(PduError::SwapState))) => {
@@ -1643,7 +1731,8 @@ fn realloc_probe(sh: &Sh, md: &'static MainDevice<'static>, _pl: &'static PduLoo
                 break;
             }
             Poll::Ready(other) => {
-                with(|c| c.anomaly("probe-unexpected", format!("probe request {} resolved at first poll with {:?}", i, other), vec![]));
+                let d = format!("{:?}", other.map(|_| ()));
+                with(|c| c.anomaly("probe-unexpected", format!("probe request {} resolved at first poll with {}", i, d), vec![]));
                 return;
             }
         }
@@ -1668,11 +1757,12 @@ fn realloc_probe(sh: &Sh, md: &'static MainDevice<'static>, _pl: &'static PduLoo
         return;
     }
     // One more must fail.
-    let mut extra = Box::pin(Command::brd(0x0000).receive::<u8>(md));
+    let mut extra = Box::pin(Command::brd(0x0000).ignore_wkc().receive_slice(md, 0));
     match extra.as_mut().poll(&mut cx) {
         Poll::Ready(Err(Error::Pdu(PduError::SwapState))) => {}
         other => {
             let d = format!("{:?}", other.map(|r| r.map(|_| ())));
+            let _ = &d;
             with(|c| c.anomaly("over-allocation", format!("request {} was admitted although all {} slots are held: {}", n + 1, n, d), vec![]));
         }
     }
